@@ -8,6 +8,7 @@ import (
 	"strings"
 	"sync"
 	"sync/atomic"
+	"time"
 
 	"github.com/uber/kraken/build-index/tagclient"
 	"github.com/uber/kraken/core"
@@ -234,7 +235,17 @@ func c25kindCoq(k string) string {
 }
 
 func (e *c25env) emitReq(ctx *hlib.Ctx, q c25req, stream string) {
-	log, ok := e.run(q)
+	// every request is local and answers at once; a call that took seconds ran into one of the
+	// client's send timeouts (5-60 s) on an overloaded machine, which would turn a scripted success
+	// into a network error: re-run, and give up on the case (inconclusive) rather than judge it
+	var log []int
+	var ok bool
+	incon := true
+	for try := 0; try < 3 && incon; try++ {
+		t0 := time.Now()
+		log, ok = e.run(q)
+		incon = time.Since(t0) > 2*time.Second
+	}
 	var ocs, ocsS []string
 	for _, h := range q.hosts {
 		o := c25outcome(q.kind, q.method, q.modes[h])
@@ -248,7 +259,7 @@ func (e *c25env) emitReq(ctx *hlib.Ctx, q c25req, stream string) {
 		hist = append(hist, "do:"+q.method)
 	}
 	hist = append(hist, fmt.Sprintf("contacted=%d", len(log)))
-	ctx.Emit(hlib.Case{Coq: "mkcase " + in + " " + out, NT: len(log) >= 1, Kind: stream, Key: in, Hist: hist,
+	ctx.Emit(hlib.Case{Coq: "mkcase " + in + " " + out, NT: len(log) >= 1, Kind: stream, Key: in, Hist: hist, Incon: incon,
 		Sample: map[string]interface{}{"call": q.kind + ":" + q.method, "hosts": q.hosts, "server_modes": ocsS,
 			"contacted_in_order": log, "returned_nil": ok}})
 }
